@@ -210,6 +210,8 @@ class Evaluator:
             return L("<empty>", fresh=True)
         if dotted(e) in ("TaskType.MIN", "TaskType.MAX"):
             return self.const(e)
+        if isinstance(e, ast.IfExp):
+            return self.expr(fi, e.body if self.test(fi, e.test, env) else e.orelse, env)
         if isinstance(e, ast.Subscript):
             base = self.expr(fi, e.value, env)
             return self.subscript(fi, base, e.slice, env)
